@@ -516,6 +516,16 @@ impl Property for C01 {
         if rng.chance(20) {
             gen::optimizer_hazard(rng, &mut sc.cmds);
         }
+        if rng.chance(25) {
+            gen::reader_template(rng, &mut sc.cmds);
+        }
+        if rng.chance(6) {
+            // values that are not scalar values, astral characters
+            let v = *rng.pick(&[0xD800usize, 0xDFFE, 0x110000, 0x1F600, 0x10FFFF, 0xFFFF, 0x10000]);
+            let (h, d) = gen::factor_pair(v);
+            let pos = rng.usize(0, sc.cmds.len());
+            sc.cmds.insert(pos, crate::reflang::Cmd::new(0, h, d, crate::reflang::RArea::Nil));
+        }
         sc.stdin = gen::gen_stdin(rng, 60);
         let fault_free = rng.chance(40);
         sc.plan = gen::gen_plan(rng, fault_free);
